@@ -69,6 +69,10 @@ def run(res):
         if not proved and report.get("duplicate_ids"):
             # say what the failing obligation is about (the violation itself was recorded by proof_stage)
             cov["failing_obligation"] = {"theorem": "C19_ids_unique", "duplicate_ids": report["duplicate_ids"]}
+        if not proved and report.get("undispatched"):
+            cov["failing_obligation"] = {"theorem": "C19_struct_codecs / C19_registry (open hypothesis arm_<T> in Gen/WireGen.v)",
+                                         "not_returned_by_from_vec": report["undispatched"],
+                                         "misnamed_variants": report.get("misnamed_variants")}
     cov["trusted_base"] = cov.get("trusted_base", []) + [
         "tools/gen_wire.py (translator; regenerated model re-proved on every run)",
         "rust-bitcoin / txoo encodings of Transaction, PSBT, TxoProof (premise blob_laws)"]
